@@ -232,7 +232,8 @@ def run(ctx):
         mkinds[kind] += 1
         mtexts.append(text)
     for t in ["", "\n", "proc", "proc main", "proc main() {", "// c\nproc", "proc\n\n//x", "}\nproc p(){\n}\n}", "proc a(){}proc b(){}\nproc c(){\n}",
-              "type t = int;", "proc p() {\r\n}\r\nproc q() {\r}\r", "proc é() {\n}", "proc p() { // 😀\n}\n// tail"]:
+              "type t = int;", "proc p() {\r\n}\r\nproc q() {\r}\r", "\ufeffproc a() {\n}\nproc b() {\n}\nproc main() {\n}\n",
+              "\ufeff// doc\nproc a()\n{\n}\n\u00a0proc b() {\n\n}", "proc é() {\n}", "proc p() { // 😀\n}\n// tail"]:
         mtexts.append(t)
         mkinds["hand-written"] += 1
     # a procedure without its closing brace in front of another (documented) declaration: exact expectation
